@@ -158,10 +158,13 @@ class Scheduler(object):
             self.replay = dict(((d[0], d[1]), d[2]) for d in plan['replay'])
             self.forced = list(plan.get('forced', ()))
         self._region_cache = {}
+        self.opcodes = bool(plan.get('opcodes'))
+        self.p_instr = plan.get('p_instr', self.p / 3.0)
+        self._instr_codes = []
+        self.instr_steps = 0
         self.seen = set()
         self.thread_codes = [set() for _ in range(n)]
         self.in_region_steps = 0
-        self.opcode_region = plan.get('opcodes', False)
 
     def seen_functions(self):
         out = set()
@@ -199,6 +202,9 @@ class Scheduler(object):
         CURRENT = self
         _mon.use_tool_id(TOOL, 'verif-sim')
         _mon.register_callback(TOOL, _mon.events.LINE, self._on_line)
+        if self.opcodes:
+            _mon.register_callback(TOOL, _mon.events.INSTRUCTION,
+                                                          self._on_instr)
         try:
             for t in threads:
                 t.start()
@@ -218,7 +224,14 @@ class Scheduler(object):
                 t.join(5)
         finally:
             _mon.set_events(TOOL, 0)
+            for code in self._instr_codes:
+                try:
+                    _mon.set_local_events(TOOL, code, 0)
+                except Exception:
+                    pass
             _mon.register_callback(TOOL, _mon.events.LINE, None)
+            if self.opcodes:
+                _mon.register_callback(TOOL, _mon.events.INSTRUCTION, None)
             _mon.free_tool_id(TOOL)
             CURRENT = None
         return self
@@ -323,7 +336,43 @@ class Scheduler(object):
             rel = os.path.realpath(fn)[len(SPYNE_ROOT):]
             r = (rel, code.co_name) in self.region
             self._region_cache[code] = r
+            if r and self.opcodes:
+                # bytecode granularity inside the targeted region
+                _mon.set_local_events(TOOL, code, _mon.events.INSTRUCTION)
+                self._instr_codes.append(code)
         return r
+
+    def _on_instr(self, code, offset):
+        me = self.by_ident.get(_get_ident())
+        if me is None or me != self.current:
+            return None
+        if self.aborted:
+            raise SimAbort()
+        self.step += 1
+        self.local[me] += 1
+        self.instr_steps += 1
+        if self.step > self.step_cap:
+            with self.cv:
+                self._abort('step cap exceeded')
+            raise SimAbort()
+        nxt = None
+        if self.replay is not None:
+            to = self.replay.get((me, self.local[me]))
+            if to is not None:
+                cand = self._runnable(exclude=me)
+                if cand:
+                    nxt = to if to in cand else cand[0]
+        elif self.rng.random() < self.p_instr:
+            cand = self._runnable(exclude=me)
+            if cand:
+                nxt = self.rng.choice(cand)
+        if nxt is not None:
+            rel = os.path.realpath(code.co_filename)[len(SPYNE_ROOT):]
+            site = '%s:%s' % (rel, code.co_name)
+            self.decisions.append([me, self.local[me], nxt, site])
+            self.region_hits[site] = self.region_hits.get(site, 0) + 1
+            self._handoff(me, nxt)
+        return None
 
     def _on_line(self, code, line):
         fn = code.co_filename
@@ -345,6 +394,8 @@ class Scheduler(object):
             raise SimAbort()
         nxt = None
         if self.replay is not None:
+            if self.opcodes and self.region:
+                self._in_region(code)   # enables INSTRUCTION events there
             to = self.replay.get((me, self.local[me]))
             if to is not None:
                 cand = self._runnable(exclude=me)
